@@ -15,7 +15,9 @@ Theorem C02_statement : forall i o, spec_okb i o = true -> Spec i o.
 Proof. exact spec_okb_sound. Qed.
 Print Assumptions C02_statement.
 
-Theorem C02_obs_eqb : forall a b, obs_eqb a b = true <-> a = b.
+(* the correspondence compares logs, leftovers and vars(scratch) of both runs exactly, and of the
+   outcomes whether the second run repeats the first (Corr.C02.alpha) *)
+Theorem C02_obs_eqb : forall a b, obs_eqb a b = true <-> alpha a = alpha b.
 Proof. exact obs_eqb_spec. Qed.
 Print Assumptions C02_obs_eqb.
 
